@@ -90,4 +90,18 @@ def decodeShellCommand : Val → Option Val
   | .str s => (shellParse s.toList).map fun l => .seq (l.map fun w => .str (String.ofList w))
   | v => decodeShellCommandList v
 
+/-! ### `SSHConfig` (types/ssh.go) — reached with the canonical mapping `transformSSH` builds -/
+
+/-- `sort.Slice(result, ID <)` as insertion into a sorted list (IDs are distinct: they are map keys) -/
+def sshInsert (e : String × String) : List (String × String) → List (String × String)
+  | [] => [e]
+  | x :: r => if e.1 < x.1 then e :: x :: r else x :: sshInsert e r
+
+/-- `SSHConfig.DecodeMapstructure`: only a mapping; `ID ↦ fmt.Sprint(path)` (nil ↦ ""), listed by ID -/
+def decodeSSHConfig : Val → Option Val
+  | .map m =>
+    let keys := m.foldr (fun kv acc => sshInsert (kv.1, match kv.2 with | .null => "" | v => sprint v) acc) []
+    some (.seq (keys.map fun e => .map [("id", .str e.1), ("path", .str e.2)]))
+  | _ => none
+
 end CV.Short
